@@ -47,7 +47,10 @@ def kind(v):
     if isinstance(v, (bool, np.bool_)):
         return 'bool'
     if isinstance(v, (int, float, np.integer, np.floating)):
-        f = float(v)
+        try:
+            f = float(v)
+        except OverflowError:       # a python int no double can hold
+            return 'foreign'
         if math.isnan(f) or math.isinf(f):
             return 'foreign'
         return 'num'
